@@ -165,8 +165,6 @@ class EnumRNG:
             x[i] = items[j]
 
     def integers(self, low, high=None, size=None, dtype=np.int64, endpoint=False):
-        if size is not None:
-            raise RNGMachineryError("integers(size) not supported")
         if high is None:
             low, high = 0, low
         low = int(low)
@@ -176,8 +174,19 @@ class EnumRNG:
         n = high - low
         if n <= 0:
             raise ValueError("low >= high")
+        if size is not None:
+            shape = (int(size),) if isinstance(size, (int, np.integer)) else tuple(int(x) for x in size)
+            cnt = int(np.prod(shape)) if shape else 1
+            vals = [low + self._decide("int", [1.0 / n] * n) for _ in range(cnt)]
+            return np.array(vals, dtype=np.int64).reshape(shape)
         c = self._decide("int", [1.0 / n] * n)
         return np.int64(low + c)
+
+    def permutation(self, x, axis=0):
+        arr = np.arange(int(x)) if isinstance(x, (int, np.integer)) else np.array(x)
+        items = list(arr)
+        self.shuffle(items)
+        return np.array(items)
 
     def choice(self, a, size=None, replace=True, p=None, axis=0, shuffle=True):
         if p is not None:
